@@ -176,12 +176,78 @@ def err_kind(e):
     return "other:" + type(e).__name__
 
 
+def as_given(rng, x, R=None, tag="", kinds=("same", "int", "fortran", "strided", "list")):
+    """the same VALUES in another legitimate representation a caller may hand in (the model sees values only):
+    integer dtype (only if all values are whole), Fortran order, a strided non-contiguous view, a python list, float32
+    (only if exactly representable). Deterministic in rng; the choice is counted in the evidence distribution."""
+    x = np.asarray(x)
+    opts = ["same", "same"]
+    whole = x.dtype.kind == "f" and x.size > 0 and np.all(np.isfinite(x)) and np.all(x == np.round(x)) and np.all(np.abs(x) < 2 ** 40)
+    if "int" in kinds and whole:
+        opts += ["int", "int"]
+    if "fortran" in kinds and x.ndim >= 2:
+        opts.append("fortran")
+    if "strided" in kinds and x.ndim >= 1 and x.size > 0:
+        opts.append("strided")
+    if "list" in kinds and x.ndim >= 1:
+        opts.append("list")
+    if "f32" in kinds and x.dtype.kind == "f" and np.all(np.isfinite(x)) and np.all(x.astype(np.float32).astype(np.float64) == x):
+        opts.append("f32")
+    ch = str(rng.choice(opts))
+    if R is not None:
+        R.count("given%s:%s" % (":" + tag if tag else "", ch))
+    if ch == "int":
+        return x.astype(np.int64)
+    if ch == "fortran":
+        return np.asfortranarray(x)
+    if ch == "strided":
+        big = np.zeros(tuple(2 * n for n in x.shape), dtype=x.dtype)
+        sl = tuple(slice(None, None, 2) for _ in x.shape)
+        big[sl] = x
+        return big[sl]
+    if ch == "list":
+        return x.tolist()
+    if ch == "f32":
+        return x.astype(np.float32)
+    return x
+
+
+MUTATIONS = []   # (function name, argument) pairs: the implementation changed a caller's array in place (the model's functions are pure)
+
+
+_STATE_ATTRS = ("A", "lb", "ub", "baseline", "K", "Epsilon", "filters", "sources", "domain", "filters_uncertainty", "w", "sources_domain")
+
+
+def _snap(a, k):
+    out = []
+    for name, v in list(enumerate(a)) + list(k.items()):
+        if isinstance(v, np.ndarray) and v.dtype != object:
+            out.append((name, v, v.copy()))
+    return out
+
+
 def call(f, *a, **k):
-    """run the implementation; returns ('ok', value) or (error-kind, message)"""
+    """run the implementation; returns ('ok', value) or (error-kind, message).
+    Frame condition of the correspondence: the arrays handed in are the same afterwards (the model is a pure function of its
+    arguments); a changed argument is recorded in MUTATIONS and reported by Run.finish as a correspondence failure. The arrays
+    are NOT restored: the rest of the case goes on with what the caller now holds, as a user's program would."""
+    snap = _snap(a, k)
+    # registered state of an estimator is part of the inputs of a bound query method: a non-registering call must leave it unchanged
+    obj = getattr(f, "__self__", None)
+    fname = getattr(f, "__name__", "")
+    if obj is not None and hasattr(obj, "__dict__") and not fname.startswith("register"):
+        for name in _STATE_ATTRS:
+            v = obj.__dict__.get(name)
+            if isinstance(v, np.ndarray) and v.dtype != object:
+                snap.append(("self." + name, v, v.copy()))
     try:
         return "ok", f(*a, **k)
     except Exception as e:  # noqa: BLE001
         return err_kind(e), "%s: %s" % (type(e).__name__, str(e)[:200])
+    finally:
+        for name, v, c in snap:
+            if v.shape != c.shape or not np.array_equal(v, c, equal_nan=(v.dtype.kind in "fc")):
+                MUTATIONS.append((getattr(f, "__name__", str(f)), str(name)))
 
 
 # ----------------------------------------------------------------------------------------------
@@ -455,6 +521,8 @@ class Run:
         return os.path.relpath(p, VERIF)
 
     def finish(self, lean):
+        for fn, arg in sorted(set(MUTATIONS)):
+            self.a_fail.append((dict(function=fn, argument=arg), "frame condition: %s() changed its argument %s in place (the model's functions are pure)" % (fn, arg)))
         known = [k for k in load_known() if k.get("property") == self.prop and k.get("status") == "known"]
         known_sigs = {k["signature"]: k for k in known}
         lines = []
